@@ -98,6 +98,32 @@ type profAgg struct {
 	samples    []*Scenario
 	rejected   int
 	wall       float64
+	seeds      []uint64
+}
+
+func (a *profAgg) merge(b *profAgg) {
+	a.runs += b.runs
+	a.steps += b.steps
+	a.requests += b.requests
+	a.rejected += b.rejected
+	for h := range b.nontrivial {
+		a.nontrivial[h] = struct{}{}
+	}
+	for h := range b.interleave {
+		a.interleave[h] = struct{}{}
+	}
+	for h := range b.states {
+		a.states[h] = struct{}{}
+	}
+	for k, v := range b.probes {
+		a.probes[k] += v
+	}
+	for k, v := range b.faults {
+		a.faults[k] += v
+	}
+	if len(a.samples) == 0 {
+		a.samples = b.samples
+	}
 }
 
 func cmdCheck(args []string) int {
@@ -135,10 +161,26 @@ func cmdCheck(args []string) int {
 			continue
 		}
 		t0 := time.Now()
-		agg, fv, err := runProfile(p, *seed, n, *workers)
-		if err != nil {
-			fmt.Fprintln(os.Stderr, "ruxsim:", err)
-			return 2
+		// the thorough tier spreads its runs over three base seeds derived from VERIF_SEED
+		seeds := []uint64{*seed}
+		if *tier == "thorough" {
+			seeds = []uint64{*seed, mix64(*seed ^ 0xa1), mix64(*seed ^ 0xb2)}
+		}
+		var agg *profAgg
+		var fv []foundViol
+		for _, sd := range seeds {
+			a, f, err := runProfile(p, sd, n/len(seeds), *workers)
+			if err != nil {
+				fmt.Fprintln(os.Stderr, "ruxsim:", err)
+				return 2
+			}
+			fv = append(fv, f...)
+			if agg == nil {
+				agg = a
+			} else {
+				agg.merge(a)
+			}
+			agg.seeds = append(agg.seeds, sd)
 		}
 		agg.wall = time.Since(t0).Seconds()
 		aggs = append(aggs, agg)
@@ -441,6 +483,15 @@ func cmdReplay(args []string) int {
 
 // ---- evidence ----
 
+func seedList(aggs []*profAgg, seed uint64) []uint64 {
+	for _, a := range aggs {
+		if len(a.seeds) > 0 {
+			return a.seeds
+		}
+	}
+	return []uint64{seed}
+}
+
 func writeEvidence(prop, tier string, seed uint64, aggs []*profAgg, nviol int, knownHit map[string]int, wall float64) {
 	type profEv struct {
 		Profile       string           `json:"profile"`
@@ -514,7 +565,7 @@ func writeEvidence(prop, tier string, seed uint64, aggs []*profAgg, nviol int, k
 			"scheduler_steps_total":   steps,
 			"simulated_time_note":     "the router core has no clock; simulated time is counted in scheduler steps",
 			"runs_per_hour":           float64(evals) / wall * 3600,
-			"seeds":                   []uint64{seed},
+			"seeds":                   seedList(aggs, seed),
 			"faults_fired_total":      faultTotal,
 			"profiles":                pe,
 			"known_findings_matched":  kh,
